@@ -234,7 +234,7 @@ class _NumericOperationsImpl(OperationsBlock):
 
     @validate_core
     def log1p(self, x):
-        return self.add(self.log(x), ndx.asarray(1, x.dtype))
+        return self.log(self.add(x, 1))
 
     @validate_core
     def log2(self, x):
